@@ -109,7 +109,9 @@ def _spec(rng, nan=False, maxf=None, method="slsqp"):
     if maxf:
         spec["optimizer"]["max_functions"] = maxf
     if nan:
-        spec["nan"] = [{"call": int(rng.integers(1, 4)), "r": r, "p": -1, "col": 0} for r in range(R)]
+        spec["nan"] = [{"call": int(rng.integers(0, 4)), "r": r, "p": -1, "col": 0} for r in range(R)]
+        # with a threshold of zero an evaluation in which every realization failed still ends normally (FINISHED_EVALUATION)
+        spec["rmin"] = int(rng.integers(0, 2))
     return spec
 
 
